@@ -139,6 +139,33 @@ func run(t *testing.T, c Case) engine.Verdict {
 	return v
 }
 
+// pushrestart: the restart half of C08 under push traffic - callbacks left
+// outstanding by the old connection while the same Server already runs on a
+// fresh channel and issues new ones.
+func genPushRestart(t *rapid.T) Case { return Case{Scenario: gen.PushRestartScenario(t)} }
+
+func runPushRestart(t *testing.T, c Case) engine.Verdict {
+	h := sim.Run(t, c.Scenario)
+	if h.BubbleErr != "" {
+		return engine.Failf("C08/goroutines-left-or-deadlock", "%s\nscript:\n%s\nhistory:\n%s", h.BubbleErr, oracle.ScriptText(c.Scenario), oracle.HistoryText(h))
+	}
+	for _, p := range oracle.ShutdownCheck(c.Scenario, h) {
+		if strings.HasPrefix(p.Sig, "C08/") {
+			return engine.Failf(p.Sig, "%s\nscript:\n%s\nhistory:\n%s", p.Msg, oracle.ScriptText(c.Scenario), oracle.HistoryText(h))
+		}
+	}
+	restarts, probeOK := 0, false
+	for _, e := range h.Events {
+		if e.Kind == "restart" {
+			restarts++
+		}
+		if e.Kind == "wire" && e.Conn > 1 {
+			probeOK = true
+		}
+	}
+	return engine.Verdict{NonTrivial: restarts > 0, Labels: []string{fmt.Sprintf("restarts:%d", restarts), fmt.Sprintf("second-connection-spoke:%v", probeOK)}}
+}
+
 const rule = "non-trivial = the stop happens with at least one handler parked or one record queued, or a record arrives after the stop, or the stop step races with its neighbours in a burst; distinct = hash of the scenario"
 
 var parts = []engine.AnyPart{
@@ -146,6 +173,8 @@ var parts = []engine.AnyPart{
 		Rule: "rapid-generated traffic (valid, invalid, notification-shaped invalid, reply-shaped records, pushes, cancels) with one or two stop causes (Stop, peer close) at any position and optionally an injected Recv/Send fault, records after the stop on channels whose Close does / does not unblock Recv, WaitStatus, restart on a fresh channel with a probe call; " + rule},
 	engine.Part[Case]{Name: "faults", Run: run, Gen: genEnum,
 		Rule: "fault enumeration: each generated fault-free scenario (at most 14 steps) is re-run once for EVERY Recv index x {(nil,err), (data,EOF), (data,err)} and EVERY Send index x {err}; the whole enumeration of one scenario is one case; " + rule},
+	engine.Part[Case]{Name: "pushrestart", Run: runPushRestart, Gen: genPushRestart,
+		Rule: "push scripts that open with 1-4 callbacks from outside (cancellable, deadline and Background contexts) left outstanding, Stop or peer close, WaitStatus and Start of the same Server on a fresh channel within the same step (often with the old callbacks' watchers delayed by a pin), then 1-3 new callbacks and ordinary push traffic, replies, stops: the bubble must end with every goroutine gone (a callback or handler of the second connection that never returns is a deadlock); non-trivial = the server was restarted at least once; distinct = hash of the scenario"},
 }
 
 func TestProp(t *testing.T)   { engine.RunParts(t, "C08", parts) }
